@@ -5,10 +5,13 @@ import (
 	"fmt"
 	"sort"
 	"strings"
+	"time"
 
 	"github.com/trustbloc/sidetree-core-go/pkg/api/operation"
 	"github.com/trustbloc/sidetree-core-go/pkg/api/protocol"
 	"github.com/trustbloc/sidetree-core-go/pkg/api/txn"
+	"github.com/trustbloc/sidetree-core-go/pkg/batch"
+	"github.com/trustbloc/sidetree-core-go/pkg/batch/opqueue"
 	"github.com/trustbloc/sidetree-core-go/pkg/dochandler"
 	"github.com/trustbloc/sidetree-core-go/pkg/observer"
 	"github.com/trustbloc/sidetree-core-go/pkg/processor"
@@ -67,7 +70,7 @@ func canonReq(b []byte) string {
 }
 
 func checkC15(c *hx.Ctx) {
-	c.Rule("(1) sequences of 1-6 transactions (valid batches written by the real OperationHandler, malformed anchor strings, missing / corrupt batch files, unknown namespace, unknown protocol version, duplicate-carrying transactions through a stub provider) delivered in 1-3 ledger notifications to the REAL Observer goroutine (race detector on) with ONE injected fault per run enumerated over every position: each CAS file of each transaction, the store Put of each transaction; oracle over the recorded store.Put calls: per processable transaction exactly one Put holding one operation per suffix (the first) stamped with the transaction's time, number, protocol version, canonical and equivalent references, nothing for a failed one, later transactions still processed, configured unpublished operations deleted; (2) DocumentHandler.ProcessOperation over sequences of valid and refused operations with an unpublished-store Put failure / writer Add failure at every call index: refused or failed operations leave no trace in the writer and in the unpublished store; non-trivial = run with a fault or a failing transaction; distinct = distinct (sequence, fault)")
+	c.Rule("(1) sequences of 1-6 transactions (valid batches written by the real OperationHandler, malformed anchor strings, missing / corrupt batch files, unknown namespace, unknown protocol version, duplicate-carrying transactions through a stub provider) delivered in 1-3 ledger notifications to the REAL Observer goroutine (race detector on) with ONE injected fault per run enumerated over every position: each CAS file of each transaction, the store Put of each transaction; oracle over the recorded store.Put calls: per processable transaction exactly one Put holding one operation per suffix (the first) stamped with the transaction's time, number, protocol version, canonical and equivalent references, nothing for a failed one, later transactions still processed, configured unpublished operations deleted; (2) DocumentHandler.ProcessOperation over sequences of valid and refused operations with an unpublished-store Put failure / writer Add failure at every call index: refused or failed operations leave no trace in the writer and in the unpublished store, also with the REAL batch.Writer (accepting, then stopped) in front of the real in-memory queue; non-trivial = run with a fault or a failing transaction; distinct = distinct (sequence, fault)")
 	c.Set("race_detector_enabled", raceEnabled)
 	p := c13Proto(ref.SHA256)
 	p2 := c13Proto(ref.SHA256)
@@ -94,8 +97,13 @@ func checkC15(c *hx.Ctx) {
 		for k := 0; k < n; k++ {
 			t := txn.SidetreeTxn{Namespace: hx.Namespace, TransactionTime: uint64(100 + 10*k), TransactionNumber: uint64(r.Intn(9)),
 				ProtocolVersion: p.GenesisTime, CanonicalReference: fmt.Sprintf("canon-%d-%d", si, k), EquivalentReferences: []string{fmt.Sprintf("eq-%d-a", k), fmt.Sprintf("eq-%d-b", k)}}
-			if r.Chance(1, 4) {
+			switch r.Intn(8) {
+			case 0, 1:
 				t.EquivalentReferences = nil
+			case 2:
+				t.CanonicalReference = "" // a ledger that knows equivalent locations only
+			case 3:
+				t.CanonicalReference, t.EquivalentReferences = "", nil
 			}
 			pl := &txnPlan{Txn: t}
 			kind := hx.Pick(r, []string{"valid", "valid", "valid", "dup", "malformed-anchor", "missing-file", "corrupt-file", "unknown-namespace", "unknown-version"})
@@ -515,6 +523,44 @@ func checkC15(c *hx.Ctx) {
 			c.Count("intake_runs:" + strings.SplitN(fp.name, "-at-", 2)[0])
 			c.Distinct("intake|" + fp.name + fmt.Sprint(si))
 		}
+		// the REAL batch writer in front of the real in-memory queue: accepted while running, refused without any trace in queue
+		// and unpublished store once it has been stopped
+		{
+			q := &opqueue.MemQueue{}
+			pcW := hx.NewClient(hx.NewVersion(p, hx.VersionOpts{CAS: hx.NewMemCAS()}))
+			w, err := batch.New(hx.Namespace, &pipeCtx{pc: pcW, l: &pipeLedger{ch: make(chan []txn.SidetreeTxn), refsOf: map[string][]*operation.Reference{}, step: func() uint64 { return 1 }}, q: q},
+				batch.WithBatchTimeout(time.Hour), batch.WithMonitorInterval(time.Hour))
+			if err != nil {
+				c.Inconclusive("batch.New: %v", err)
+				return
+			}
+			unpub := &recUnpub{}
+			dh := dochandler.New(hx.Namespace, nil, pc, w, processor.New("verif", store, pc), hx.NopMetrics{}, dochandler.WithUnpublishedOperationStore(unpub, allOpTypes))
+			var creates [][]byte
+			for _, s := range steps {
+				if s.kind == "create" {
+					creates = append(creates, s.req)
+				}
+			}
+			if len(creates) >= 2 {
+				c.Eval()
+				_, err1 := dh.ProcessOperation(creates[0], p.GenesisTime)
+				l1, u1 := q.Len(), unpub.Len()
+				w.Stop()
+				_, err2 := dh.ProcessOperation(creates[1], p.GenesisTime)
+				l2, u2 := q.Len(), unpub.Len()
+				if err1 != nil || l1 != 1 || u1 != 1 {
+					c.Violation(fmt.Sprintf("C15 batch writer not stopped: ProcessOperation err=%v, queue length %d, unpublished store %d (expected nil, 1, 1)", err1, l1, u1), map[string]interface{}{"request": string(creates[0])})
+					return
+				}
+				if err2 == nil || l2 != l1 || u2 != u1 {
+					c.Violation(fmt.Sprintf("C15 stopped batch writer: ProcessOperation err=%v, queue length %d -> %d, unpublished store %d -> %d: an operation whose enqueueing fails must be reported and leave no trace", err2, l1, l2, u1, u2),
+						map[string]interface{}{"request": string(creates[1])})
+					return
+				}
+				c.Count("intake_runs:real-writer-stopped")
+			}
+		}
 		if si == 0 {
 			c.Sample(3, map[string]interface{}{"intake_steps": stepKinds(steps), "fault_plans": len(plansI)})
 		}
@@ -526,6 +572,7 @@ func checkC15(c *hx.Ctx) {
 	c.Floor("txn_kind:valid", 50)
 	c.Floor("intake_runs:unpublished-put-fails", 50)
 	c.Floor("intake_runs:writer-add-fails", 50)
+	c.Floor("intake_runs:real-writer-stopped", 10)
 	_ = protocol.Protocol{}
 }
 
